@@ -62,7 +62,7 @@ def doReset (toks : List String) : St × String :=
     if k.startsWith "A" then setA acc (nat! (k.drop 1).toString) (parseAcct3 v) else acc) []
   -- genesis accounts carry RewardsBase 0 whatever the token says (the harness never sets it)
   let accts := accts.map (fun (k, a) => (k, { a with base := 0 }))
-  let t0 := Sum unit univ (toMap accts) 0
+  let t0 := SumOf unit univ (toMap accts) 0
   ({ unit := unit, hist := #[⟨t0, 0, [], accts⟩], rt := RT.load 0 t0, live := true }, "ok")
 
 /-- `D<id>=ost,obal,obase>nst,nbal,nbase` -/
@@ -135,7 +135,7 @@ def doQuery (s : St) : String :=
   let toks := rounds.map (fun r =>
     match s.rt.totals r, s.hist[r]? with
     | some t, some rec =>
-      let sm := showT (Sum s.unit univ (toMap rec.accts) rec.level)
+      let sm := showT (SumOf s.unit univ (toMap rec.accts) rec.level)
       s!"{r}={showT t}/{sm}/{sm}"
     | _, _ => s!"{r}=err")
   " ".intercalate (head :: toks)
